@@ -437,6 +437,8 @@ def render_ast(e) -> str:
         return "%s.%s(%s)" % (atom(e["x"]), e["f"], ", ".join(render_ast(a) for a in e["args"]))
     if k == "macro":
         return "%s.%s(%s, %s)" % (atom(e["x"]), e["m"], e["v"], render_ast(e["body"]))
+    if k == "obj":
+        return "%s{%s}" % (e["n"], ", ".join("%s: %s" % (f, render_ast(x)) for f, x in e["fs"]))
     raise ValueError(k)
 
 
@@ -446,7 +448,7 @@ def field(f):
 
 def atom(e):
     s = render_ast(e)
-    if e["k"] in ("var", "list", "map", "call", "idx", "sel", "mcall", "macro", "has") or s.startswith("("):
+    if e["k"] in ("var", "list", "map", "call", "idx", "sel", "mcall", "macro", "has", "obj") or s.startswith("("):
         return s
     if e["k"] == "lit" and e["v"]["t"] in ("list", "map", "string", "bytes", "bool", "null", "timestamp", "duration"):
         return s
